@@ -65,11 +65,18 @@ pub fn gen_base(rng: &mut Rng, cfg: &BaseCfg) -> (J, StdTable, Sel, Shape) {
         // ... and sometimes another column has a DEFAULT: a line failing NOT NULL is still no row
         if rng.chance(1, 2) { for c in t.spec.cols.iter_mut() { if c.name == "k" { c.modifier = Modifier::Default(E::Str("dflt".into())); } } }
     }
+    // a column with a DEFAULT makes every line a row, also empty and non-matching ones
+    if !cfg.not_null_column && rng.chance(1, 5) {
+        let which = *rng.pick(&["k", "i"]);
+        for c in t.spec.cols.iter_mut() { if c.name == which { c.modifier = if which == "k" { Modifier::Default(E::Str("dflt".into())) } else { Modifier::Default(E::Int(7)) }; } }
+    }
     let mut dc = DataCfg::random(rng, t.schema.cols.len(), false);
     let mut n = cfg.min_lines + rng.below(cfg.max_lines - cfg.min_lines + 1);
     // size thresholds: many lines, many groups / distinct keys, many values per group
     if cfg.big_rate > 0 && rng.chance(1, cfg.big_rate) { n = cfg.big_lines / 2 + rng.below(cfg.big_lines / 2 + 1); dc.keys = *rng.pick(&[1usize, 3, 40, 300]); }
-    let lines = std_lines(rng, &t, n, &dc);
+    let mut lines = std_lines(rng, &t, n, &dc);
+    // empty lines, blanks and foreign text between the records (rows only where a DEFAULT makes them rows)
+    if rng.chance(1, 5) { for _ in 0..(1 + rng.below(4)) { let at = rng.below(lines.len() + 1); lines.insert(at, rng.pick(&["", "", " ", "garbage", "{}", "k="]).to_string()); } }
     let shape = *rng.pick(cfg.shapes);
     let ecfg = ExprCfg { ill_typed: 0, max_depth: 2, ..Default::default() };
     let mut joined: Option<Vec<String>> = None;
